@@ -12,9 +12,9 @@ use crate::stream::{check_last, enum_sequences, run_stream};
 use serde_json::json;
 
 pub const KINDS: [Kind; 6] = [Kind::Ema, Kind::Tr, Kind::Atr, Kind::Macd, Kind::Kc, Kind::Ce];
-pub const MULTS: [f64; 6] = [0.0, 0.5, 2.0, 3.0, 1e3, -1.0];
+pub const MULTS: [f64; 8] = [0.0, 0.5, 2.0, 3.0, 1e3, -1.0, 2.1, 0.1];
 
-pub const RULE: &str = "Seeded scalar streams (any sign, RAND and band REGIME families) and OHLCV bar streams (6 styles + tiled AMZN; a quarter negated, a fifth with crossed bars high < low) for EMA/TR/ATR/MACD/KC/CE with periods incl. 1, equal and inverted fast/slow, up to 1024, multipliers {0,0.5,2,3,1e3,-1}, incl. scalar streams of magnitude 1e100..1e150, 1e-150..1e-100 and one-signed streams in [6.5e307, 8.5e307] (just below overflow; multipliers <= 3 there); every output component judged at every step against a double-double evaluation of the documented recursion over the whole history; plus long runs of 1.1*10^6 (quick) / 2.2*10^6 (thorough) inputs judged on the first 3000 steps, every 997th and the last; plus every bar/scalar sequence up to a depth bound over a small alphabet for periods 1..=4 (exhaustive). Non-trivial: stream longer than every period with >= 2 distinct inputs; distinct by hash of (indicator, params, stream head) or by construction (enumeration).";
+pub const RULE: &str = "Seeded scalar streams (any sign, RAND and band REGIME families) and OHLCV bar streams (6 styles + tiled AMZN; a quarter negated, a fifth with crossed bars high < low) for EMA/TR/ATR/MACD/KC/CE with periods incl. 1, equal and inverted fast/slow, up to 1024, multipliers {0,0.5,2,3,1e3,-1,2.1,0.1}, incl. scalar streams of magnitude 1e100..1e150, 1e-150..1e-100 and one-signed streams in [6.5e307, 8.5e307] (just below overflow; multipliers <= 3 there); every output component judged at every step against a double-double evaluation of the documented recursion over the whole history; plus long runs of 1.1*10^6 (quick) / 2.2*10^6 (thorough) inputs judged on the first 3000 steps, every 997th and the last; plus every bar/scalar sequence up to a depth bound over a small alphabet for periods 1..=4 (exhaustive). Non-trivial: stream longer than every period with >= 2 distinct inputs; distinct by hash of (indicator, params, stream head) or by construction (enumeration).";
 
 fn judge(p: &Params, out: &Out, r: &RefOut, js: &mut Judgements) -> usize {
     ema_family_judgements(p, out, r, js);
